@@ -25,12 +25,28 @@ CLAIMS = {
         "Trusts the reference selection rules written from the command docstrings; relative `pushd -n` arguments, Windows UNC branches and power-loss are out of scope; if capset is refused the unsearchable-directory symbols lose their meaning (recorded in evidence).",
         "DESIGN.md §3 C16",
     ),
+    "C11": (
+        "model_checking",
+        "explicit-state BFS over a scope language (swap/overlay/DELETE_VAR/exit by return or exception/set/del) on the real Env; six read paths vs a reference layer stack; fresh-thread views",
+        "seqx",
+        "Breadth-first search over all histories (depth 4 quick / 6 thorough, nesting <= 3, 4 variables of different registration kinds) of the real Env.swap / overlay / mask / set / delete operations; on every state the six read paths ([], in, get, iteration, detype, detype_all) are compared with a reference stack of dict layers and with each other, a fresh thread checks that nothing of the scopes is visible elsewhere and that no thread-local residue survives the last exit.",
+        "Trusts the reference layering (overlay shadows swap shadows global shadows default, from the swap() docstring); non-scoped set/del of a variable that an active scope overrides is outside the statement; the schedule quantifier is covered by the pysched part when present (see evidence.schedule_part).",
+        "DESIGN.md §3 C11",
+    ),
+    "C20": (
+        "model_checking",
+        "explicit-state BFS over job start/exit/jobs/fg/bg/disown/purge histories on the real job-control functions with stub processes; lock-step dict+MRU reference",
+        "seqx",
+        "Breadth-first search over all histories (depth 7 quick / 10 thorough, <= 4 live jobs, 46-event alphabet incl. invalid arguments and commands issued from a worker thread under use_main_jobs) of the real add_job / jobs / fg / bg / disown / get_next_task; every transition is compared with a dict + MRU-list reference and the structural invariants of the statement.",
+        "Process objects, pipeline.resume, signals and terminal hand-over are stubs/recorders; multi-id disown is outside the alphabet; whether disown purges finished jobs first is not constrained.",
+        "DESIGN.md §3 C20",
+    ),
 }
 
 NOT_YET = "check not built yet (work in progress in this round; see DESIGN.md §3 for the planned exploration)"
 
 ENGINES = [
-    {"name": "seqx", "path": "xv/seqx.py", "serves_properties": ["C16"], "kind_free_text": "explicit-state breadth-first search whose transitions call the real entry points on a freshly replayed implementation; canonical state hashing; lock-step reference"},
+    {"name": "seqx", "path": "xv/seqx.py", "serves_properties": ["C11", "C16", "C20"], "kind_free_text": "explicit-state breadth-first search whose transitions call the real entry points on a freshly replayed implementation; canonical state hashing; lock-step reference"},
     {"name": "gramx", "path": "xv/", "serves_properties": ["C15"], "kind_free_text": "bounded-exhaustive enumeration of structured inputs run through the real implementation, compared with a reference"},
 ]
 
